@@ -380,6 +380,10 @@ func GenScenario(t *rapid.T, p GenParams) Scenario {
 			st.Behave = b
 		case k < 16 && p.Gets:
 			st.Op = "get-alerts"
+			if rapid.Bool().Draw(t, "getFiltered") {
+				st.Flags = &GetFlags{Active: rapid.Bool().Draw(t, "fActive"), Silenced: rapid.Bool().Draw(t, "fSilenced"), Inhibited: rapid.Bool().Draw(t, "fInhibited"),
+					Receiver: sampled(t, "fReceiver", "", "", "r0", "r1", "r.*", "r[1-9]|x")}
+			}
 		case k < 17 && p.Gets:
 			st.Op = "get-groups"
 		case k < 18 && p.Reload:
